@@ -304,10 +304,12 @@ class Engine:
     def concretize(s, st, v, what, limit=64):
         """fork helper: return list of (value, constraint) for symbolic v"""
         out = []
-        sol = z3.Solver()
+        sol = z3.Solver(); sol.set('timeout', s.query_timeout_ms)
         for c in st.pc: sol.add(c)
         while len(out) <= limit:
-            if sol.check() != z3.sat: break
+            r = sol.check()
+            if r == z3.unknown: s.unknowns += 1; raise Unsupported('solver unknown (enumerating values of symbolic %s)' % what)
+            if r != z3.sat: break
             m = sol.model(); x = m.eval(v, model_completion=True).as_long()
             out.append(x); sol.add(v != x)
         else:
@@ -788,7 +790,9 @@ class Engine:
 def install_std_stubs(E):
     S = E.stubs
     def new(E, st, fr, I, A):
-        if is_sym(A[0]): raise Unsupported('symbolic allocation size')
+        if is_sym(A[0]):
+            args = [(at, av, info) for (at, av, info) in I['args'] if av is not None]
+            return ('forks', E.fork_arg(st, fr, I, args, 0, 'allocation size'))
         if A[0] > (1 << 32): E.throw(st, 0, E.gaddr_of(st, '@_ZTISt9bad_alloc')); return 'handled'
         return E.alloc(st, A[0], 'heap')
     def delete(E, st, fr, I, A):
